@@ -226,3 +226,45 @@ Proof.
   replace ((1 + 1) * sqrt 3 * (sqrt 3 * (A2 / 2)) / (A2 + A2 + A2)) with ((sqrt 3 * sqrt 3) * A2 / (3 * A2)) by (field; lra).
   rewrite H3. field. lra.
 Qed.
+
+(* ------------------------------------------------------------------ vertex normals (after fixes 4785e9e / 524c983): every returned
+   vector is unit, or is a raw sum of cross products whose length is at rounding level relative to the longest sum -- whatever the
+   length unit of the mesh *)
+Definition vn_max (n : nat) (v : list V3) (ts : list tri) : R :=
+  fold_left (fun m s => let l := norm Rops s in if ltb Rops m l then l else m) (vertex_normal_sums Rops n v ts) 0.
+Lemma fold_max_nonneg (l : list V3) : forall m0, 0 <= m0 ->
+  0 <= fold_left (fun m s => let l := norm Rops s in if ltb Rops m l then l else m) l m0.
+Proof.
+  induction l as [|s l IH]; intros m0 H; [exact H|]. cbn [fold_left]. apply IH. cbv zeta. cbn [ltb Rops].
+  destruct (Rltb m0 (norm Rops s)) eqn:E; [apply Rltb_true in E; lra|exact H].
+Qed.
+Lemma unit_of_positive (s : V3) : 0 < norm Rops s -> dotR (vdivs Rops s (norm Rops s)) (vdivs Rops s (norm Rops s)) = 1.
+Proof.
+  intros Hn. unfold norm, norm2 in *. cbn [sqrtK Rops] in *. pose proof (dot_self_nonneg s) as P.
+  set (L := sqrt (dotR s s)) in *. assert (HL : L * L = dotR s s) by (apply sqrt_sqrt; exact P).
+  r3 s. unfold dot, vdivs, vx, vy, vz in *. cbn [fst snd add mul div Rops] in *.
+  transitivity ((x * x + y * y + z * z) / (L * L)); [field; lra|]. rewrite HL. field. rewrite <- HL. nra.
+Qed.
+Lemma vn_map_spec (sums : list V3) mx : 0 <= mx ->
+  Forall (fun w => dotR w w = 1 \/ norm Rops w <= eps52 Rops * mx)
+         (map (fun s => vdivs Rops s (if Rltb (eps52 Rops * mx) (norm Rops s) then norm Rops s else 1)) sums).
+Proof.
+  intros Hm. apply Forall_forall. intros w Hw. apply in_map_iff in Hw. destruct Hw as (s & <- & _).
+  destruct (Rltb (eps52 Rops * mx) (norm Rops s)) eqn:E.
+  - left. apply Rltb_true in E. apply unit_of_positive. pose proof eps52_pos. nra.
+  - right. apply Rltb_false in E.
+    assert (Ew : vdivs Rops s 1 = s) by (r3 s; unfold vdivs, vx, vy, vz; cbn [fst snd div Rops]; f_equal; [f_equal|]; field).
+    rewrite Ew. lra.
+Qed.
+Lemma vertex_normals_spec n v ts :
+  match vertex_normals Rops n v ts with
+  | Ok l => Forall (fun w => dotR w w = 1 \/ norm Rops w <= eps52 Rops * vn_max n v ts) l
+  | Err _ => True
+  end.
+Proof.
+  unfold vertex_normals. destruct (negb (is_oriented ts)); [exact I|]. cbv zeta.
+  apply (vn_map_spec (vertex_normal_sums Rops n v ts) (vn_max n v ts)). apply fold_max_nonneg. lra.
+Qed.
+Theorem vertex_normals_unit_or_negligible n v ts l : vertex_normals Rops n v ts = Ok l ->
+  Forall (fun w => dotR w w = 1 \/ norm Rops w <= eps52 Rops * vn_max n v ts) l.
+Proof. intros H. pose proof (vertex_normals_spec n v ts) as S. rewrite H in S. exact S. Qed.
